@@ -1159,8 +1159,8 @@ MANIFEST_TEXT['C11'] = dict(level_text='Narrow: how one directory entry is class
 PROPS['C12'].update(
     explanation='Only the per-call parts of the statement, each on the real code: (1) the command dispatch of main() (extracted with its OPERATION_* definitions, every state_* callee a recording stub that may leave the state marked as changed): status, diff, list, dup, check, dry and the device commands start nothing that writes data, parity or content (no state_sync / state_scrub / state_touch / state_rehash / state_pool / state_write, and state_check only with fix = 0); scrub may only scrub and save the content file; sync only sync and save; fix runs state_check with fix = 1 and never saves the content file; pool only state_pool; touch only state_touch and save; an audit-only check starts no import / search. (2) state_check: without the fix flag the parity is only ever opened with parity_open - never created, resized or truncated - and not at all with -a; the fix flag reaches state_check_process unchanged. (3) the write-back region of state_check_process and file_post: without the fix flag no data block, parity block, rename or time-stamp is issued; with it only for bad blocks of selected files (see C05). (4) handle_open (how sync, scrub, check and dry open DATA files) and parity_open (how check, scrub and dry open PARITY): every open() issued has access mode O_RDONLY and neither O_CREAT, O_TRUNC nor O_APPEND, through the real open_noatime and advise_flags.',
     trusted_base=['region extraction of main() and state_check; open_noatime (unix.c) and advise_flags (support.c) extracted', 'open / fstat / close / advise_open and every state_* callee by stub'],
-    assumptions=['that the processing loops (state_sync_process, state_scrub_process, state_check_process without fix, state_status, state_list, state_dup, state_diffscan) issue no other mutating system call than through the functions above is NOT under an obligation - it is a statement over every call site of those loops (a syntactic fact: scrub.c, sync.c, dry.c reference no handle_create / handle_write / handle_truncate / unlink / rename; check.c only under `if (fix)`), not a contract', 'what fix may write (only what it reports as fixed), pool, touch, the log and lock files are NOT under an obligation'],
-    not_covered=['state_check_process: file create / truncate in fix mode, directories and empty files', 'state_pool, state_touch', 'log / lock file creation', 'the frame "nothing else changed" over the file system'])
+    assumptions=['that the processing loops (state_sync_process, state_scrub_process, state_check_process without fix, state_status, state_list, state_dup, state_diffscan) issue no other mutating system call than through the functions above is NOT under an obligation - it is a statement over every call site of those loops (a syntactic fact: scrub.c, sync.c, dry.c reference no handle_create / handle_write / handle_truncate / unlink / rename; check.c only under `if (fix)`), not a contract', 'what fix writes is decided on the extracted regions of state_check_process (data verification, write-back, links, file_post) within small bounds; touch is decided on the whole of touch.c (one file); pool, the log and lock files are NOT under an obligation'],
+    not_covered=['state_check_process: file create / truncate in fix mode, directories and empty files', 'state_pool', 'log / lock file creation', 'the frame "nothing else changed" over the file system'])
 MANIFEST_TEXT['C12'] = dict(level_text='Narrow: which top-level operations each command may start, how check / fix choose between read-only and writable parity, and the open flags of the read-only open functions are per-call statements and are decided for all inputs; that the processing loops touch the file system only through those functions, and the whole-process frame, are not - level other.',
                             design_ref='DESIGN.md section 4', level_note='callees by stub; the frame over the file system and the call sites inside the processing loops are not decided', technique='CBMC drivers on mechanically extracted regions of real cmdline/snapraid.c and check.c and on real handle.c / parity.c open functions')
 PROPS['C19'] = dict(level='other', obligations=c19)
